@@ -75,6 +75,8 @@ def gen(ctx, k, stepper_only=False):
     grp('ct:edwards', 'ed.pointops', ['ct.ed.pointops %s %s' % (vals.Pt(s + 1, i % 8).tok(), vals.Pt(2 * s + 3, (i * 3) % 8).tok())
                                       for i, s in enumerate(S)])
     grp('ct:montgomery', 'mt.mul', ['ct.mt.mul %s %s' % (u, cs(s)) for s in S])
+    # field values whose Elligator intermediate eps is a square / a non-square (both kinds occur among random inputs)
+    grp('ct:montgomery', 'mt.elligator', ['ct.mt.elligator %s' % b.hex() for b in B32 + [vals.rb(rng, 32) for _ in range(4)]])
     grp('ct:montgomery', 'mt.mulbits', ['ct.mt.mulbits %s b%s' % (u, format(le(b) >> 3, '0253b')) for b in B32])
     grp('ct:x25519', 'x.x25519', ['ct.x.x25519 %s %s' % (b.hex(), u) for b in B32])
     for kind in (0, 1, 2):
@@ -195,7 +197,7 @@ def task_memcheck(prop, seed, size, cfgbins, shard=0, nshards=1):
 
 STEP_OPS = ['sc.arith', 'sc.invert', 'sc.batchinv2', 'ed.mul', 'ed.mulbase', 'ed.mulclamped', 'ed.msm3', 'ed.pointops', 'mt.mul',
             'x.x25519', 'rs.uniform', 'rs.mul', 'rs.dblbatch2', 'sig.sign', 'sig.keygen', 'ed.table32', 'ed.mul_secretpoint',
-            'rs.msm', 'x.dh1', 'ed.msm190']
+            'rs.msm', 'x.dh1', 'ed.msm190', 'mt.elligator']
 
 
 def task_stepper(prop, seed, size, cfgbins, ops=()):
